@@ -6,7 +6,7 @@ From RG Require Import Base.Bytes Base.BytesFacts Base.LineTerm Model.Lines Mode
   Spec.GrepSpec Spec.RegexSem Model.RegexBuild Model.RegexLiteral Model.CoreLinePaths
   Proofs.LinesProofs Proofs.SlowPathProofs Proofs.FastPathProofs Proofs.FindSpecProofs
   Proofs.RegexSemProofs Proofs.RegexBuildProofs Proofs.RegexPassesProofs Proofs.RegexLiteralProofs
-  Proofs.LinePathsProofs Proofs.LineLocalityProofs.
+  Proofs.LinePathsProofs Proofs.LineLocalityProofs Proofs.RegexLiteralBytes.
 
 (* ---- the literal search ---- *)
 Definition occ (l hay : bytes) (q : nat) : Prop := q + length l <= length hay /\ sub hay q (q + length l) = l.
@@ -232,32 +232,42 @@ Qed.
 Lemma byte_at_sub (s : bytes) a b p : p < b - a -> byte_at (sub s a b) p = byte_at s (a + p).
 Proof. intro H. unfold sub. rewrite byte_at_firstn by exact H. apply byte_at_skipn. Qed.
 
+(* LF lines: a line's content has a match iff the buffer has a match inside its content region *)
+Definition content_match (h : hir) (l : bytes) : bool := is_match_sem h (without_terminator (LTByte LF) l).
+
+Lemma pm_iff h : local_looks h = true -> forall pre l post, lines_shape LF (pre ++ l :: post) ->
+  (content_match h l = true <->
+   exists i j, length (concat pre) <= i /\ j <= length (concat pre) + clen l /\
+               Matches h (concat (pre ++ l :: post)) i j).
+Proof.
+  intros Hloc pre l post Hs. destruct (line_geometry pre l post Hs) as (Hab & HL & HR & Hsub & _ & _).
+  set (hay := concat (pre ++ l :: post)) in *. set (a := length (concat pre)) in *.
+  set (b := a + clen l) in *.
+  unfold content_match. rewrite <- Hsub, is_match_sem_iff. split.
+  - intros (i & j & M). pose proof (matches_bounds _ _ _ _ M) as B. rewrite length_sub' in B by exact Hab.
+    exists (a + i), (a + j). split; [lia|]. split; [lia|].
+    apply (line_locality_partial_proof h hay a b i j Hloc Hab HL HR ltac:(lia)). exact M.
+  - intros (i & j & Ha & Hb & M). pose proof (matches_bounds _ _ _ _ M) as B.
+    exists (i - a), (j - a).
+    apply (line_locality_partial_proof h hay a b (i - a) (j - a) Hloc Hab HL HR ltac:(lia)).
+    replace (a + (i - a)) with i by lia. replace (a + (j - a)) with j by lia. exact M.
+Qed.
+
+(* the contract, for any per-line test [cm] that is sound for the buffer: a line that passes has a
+   buffer match inside its (LF) content region; if [need_back], conversely *)
 Section RC.
   Variable h : hir.
-  Hypothesis Hloc : local_looks h = true.
   (* no match of the final HIR contains a line feed (Props/C11.v build_line_terminator_promise) *)
   Hypothesis Hclean : forall buf i j, Matches h buf i j -> forall p, i <= p < j -> byte_at buf p <> LF.
-
-  Definition content_match (l : bytes) : bool := is_match_sem h (without_terminator (LTByte LF) l).
-
-  (* a line's content has a match iff the buffer has a match inside the line's content region *)
-  Lemma pm_iff pre l post : lines_shape LF (pre ++ l :: post) ->
-    (content_match l = true <->
-     exists i j, length (concat pre) <= i /\ j <= length (concat pre) + clen l /\
-                 Matches h (concat (pre ++ l :: post)) i j).
-  Proof.
-    intro Hs. destruct (line_geometry pre l post Hs) as (Hab & HL & HR & Hsub & _ & _).
-    set (hay := concat (pre ++ l :: post)) in *. set (a := length (concat pre)) in *.
-    set (b := a + clen l) in *.
-    unfold content_match. rewrite <- Hsub, is_match_sem_iff. split.
-    - intros (i & j & M). pose proof (matches_bounds _ _ _ _ M) as B. rewrite length_sub' in B by exact Hab.
-      exists (a + i), (a + j). split; [lia|]. split; [lia|].
-      apply (line_locality_partial_proof h hay a b i j Hloc Hab HL HR ltac:(lia)). exact M.
-    - intros (i & j & Ha & Hb & M). pose proof (matches_bounds _ _ _ _ M) as B.
-      exists (i - a), (j - a).
-      apply (line_locality_partial_proof h hay a b (i - a) (j - a) Hloc Hab HL HR ltac:(lia)).
-      replace (a + (i - a)) with i by lia. replace (a + (j - a)) with j by lia. exact M.
-  Qed.
+  Variable cm : bytes -> bool.
+  Variable need_back : bool.
+  Hypothesis cm_fwd : forall pre l post, lines_shape LF (pre ++ l :: post) -> cm l = true ->
+    exists i j, length (concat pre) <= i /\ j <= length (concat pre) + clen l /\
+                Matches h (concat (pre ++ l :: post)) i j.
+  Hypothesis cm_back : need_back = true -> forall pre l post i j, lines_shape LF (pre ++ l :: post) ->
+    length (concat pre) <= i -> j <= length (concat pre) + clen l ->
+    Matches h (concat (pre ++ l :: post)) i j -> cm l = true.
+  Notation content_match := cm.
 
   (* if every match of the buffer starts at or after x, no line that ends before x has a match;
      likewise for literal occurrences *)
@@ -282,7 +292,7 @@ Section RC.
                 length (concat pre1) + clen y < length (concat (pre1 ++ y :: pre2)).
   Proof.
     intros Hs Hy. rewrite <- app_assoc in Hs. cbn [app] in Hs.
-    destruct (proj1 (pm_iff pre1 y (pre2 ++ l :: post) Hs) Hy) as (i & j & H1 & H2 & M).
+    destruct (cm_fwd pre1 y (pre2 ++ l :: post) Hs Hy) as (i & j & H1 & H2 & M).
     destruct (line_geometry pre1 y (pre2 ++ l :: post) Hs) as (_ & _ & _ & _ & Hk & _).
     exists i, j. rewrite <- app_assoc. cbn [app]. split; [exact M|]. split; [exact H1|]. split; [exact H2|].
     rewrite concat_app. cbn [concat]. rewrite !app_length.
@@ -312,15 +322,6 @@ Section RC.
     end.
   Hypothesis Hlits : lits_ok.
 
-  Variable cfg : config.
-  Hypothesis Hlt : c_lt cfg = LTByte LF.
-  Variable adv : option rterm.
-  Variable fa : bytes -> nat -> option (nat * nat).
-  Let M := regex_line_matcher h adv lits span fa.
-
-  Lemma pm_is ls : pmatch cfg M ls = content_match ls.
-  Proof. unfold pmatch, content_match, M, regex_line_matcher, regex_matcher. cbn [m_is_match]. now rewrite Hlt. Qed.
-
   (* the contract on the list of remaining lines *)
   Lemma cand_on_lines ls : lines_shape LF ls -> ls <> [] ->
     match regex_find_candidate lits span (concat ls) with
@@ -330,7 +331,7 @@ Section RC.
                           length (concat pre) <= x /\
                           (x < length (concat pre) + length l \/
                            (post = [] /\ x = length (concat pre) + length l /\ partial LF l)) /\
-                          (conf = true -> content_match l = true))
+                          (conf = true -> need_back = true -> content_match l = true))
       \/ (conf = true /\ x = length (concat ls) /\ Forall (fun l => content_match l = false) ls /\
           (exists pre l, ls = pre ++ [l] /\ terminated LF l))
     end.
@@ -339,7 +340,7 @@ Section RC.
     (* no line matches when the buffer has no match / no occurrence *)
     assert (Hnone : (forall i j, ~ Matches h hay i j) -> Forall (fun l => content_match l = false) ls).
     { intro Hno. apply Forall_forall. intros y Hy. destruct (content_match y) eqn:E; [|reflexivity]. exfalso.
-      apply in_split in Hy as (p1 & p2 & ->). destruct (proj1 (pm_iff p1 y p2 Hs) E) as (i & j & _ & _ & Mm).
+      apply in_split in Hy as (p1 & p2 & ->). destruct (cm_fwd p1 y p2 Hs E) as (i & j & _ & _ & Mm).
       exact (Hno i j Mm). }
     (* in_line from a span inside the content region *)
     assert (Hin : forall pre l post x, ls = pre ++ l :: post -> length (concat pre) <= x ->
@@ -389,11 +390,11 @@ Section RC.
                 rewrite <- E in Mm'. fold hay in Mm'. exists i'. split; [exists j'; exact Mm'|].
                 pose proof (matches_bounds _ _ _ _ Mm'). lia.
              ++ intros x (y & Mx). specialize (Hleft x y Mx). lia.
-          -- intros _. apply (pm_iff pre l post Hs). exists i, j. rewrite <- E. auto.
+          -- intros _ Hnb. apply (cm_back Hnb pre l post i j Hs); [lia|lia|]. rewrite <- E. exact Mm.
         * right. split; [reflexivity|]. split; [exact H2|]. split; [|destruct H3 as [->|H3]; [congruence|exact H3]].
           apply Forall_forall. intros y Hy. destruct (content_match y) eqn:Ey; [|reflexivity]. exfalso.
           apply in_split in Hy as (p1 & p2 & ->).
-          destruct (proj1 (pm_iff p1 y p2 Hs) Ey) as (i' & j' & G1 & G2 & Mm').
+          destruct (cm_fwd p1 y p2 Hs Ey) as (i' & j' & G1 & G2 & Mm').
           fold hay in Mm'. specialize (Hleft i' j' Mm').
           destruct (line_geometry p1 y p2 Hs) as (Hg & _ & _ & _ & Hk & _).
           pose proof (matches_bounds _ _ _ _ Mm') as B'. fold hay in Hg.
@@ -426,31 +427,57 @@ Proof.
       rewrite Nat.add_comm. symmetry. apply skipn_add.
 Qed.
 
-Theorem regex_cand_ok_proof : forall h span lits cfg adv fa s,
-  local_looks h = true ->
-  (forall buf i j, Matches h buf i j -> forall p, i <= p < j -> byte_at buf p <> LF) ->
-  span_ok h span -> lits_ok h lits -> c_lt cfg = LTByte LF ->
+Lemma cand_ok_of_lines h span lits cfg adv fa s (cm : bytes -> bool) (need_back : bool) :
+  lt_byte (c_lt cfg) = LF ->
+  (forall l, pmatch cfg (regex_line_matcher h adv lits span fa) l = cm l) ->
+  (lt_is_crlf (c_lt cfg) = false -> need_back = true) ->
+  (forall ls, lines_shape LF ls -> ls <> [] ->
+     match regex_find_candidate lits span (concat ls) with
+     | None => Forall (fun l => cm l = false) ls
+     | Some (conf, x) =>
+       (exists pre l post, ls = pre ++ l :: post /\ Forall (fun y => cm y = false) pre /\
+                           length (concat pre) <= x /\
+                           (x < length (concat pre) + length l \/
+                            (post = [] /\ x = length (concat pre) + length l /\ partial LF l)) /\
+                           (conf = true -> need_back = true -> cm l = true))
+       \/ (conf = true /\ x = length (concat ls) /\ Forall (fun l => cm l = false) ls /\
+           (exists pre l, ls = pre ++ [l] /\ terminated LF l))
+     end) ->
   cand_ok cfg (regex_line_matcher h adv lits span fa) s.
 Proof.
-  intros h span lits cfg adv fa s Hloc Hclean Hspan Hlits Hlt p ls Hat Hne.
-  assert (Hb : lt_byte (c_lt cfg) = LF) by (now rewrite Hlt).
+  intros Hb Hpm Hnb Hlines p ls Hat Hne.
   destruct (lines_at_shape_concat cfg s Hb ls p Hat) as [Hs Hc].
-  pose proof (cand_on_lines h Hloc Hclean span Hspan lits Hlits adv fa ls Hs Hne) as H.
+  pose proof (Hlines ls Hs Hne) as H.
   change (m_find_candidate (regex_line_matcher h adv lits span fa) (skipn p s))
     with (regex_find_candidate lits span (skipn p s)).
   rewrite Hc.
-  assert (Hpm : forall l, pmatch cfg (regex_line_matcher h adv lits span fa) l = content_match h l).
-  { intro l. exact (pm_is h span lits cfg Hlt adv fa l). }
-  assert (HF : forall xs, Forall (fun y => content_match h y = false) xs ->
+  assert (HF : forall xs, Forall (fun y => cm y = false) xs ->
                           Forall (fun y => pmatch cfg (regex_line_matcher h adv lits span fa) y = false) xs).
   { intros xs Hx. eapply Forall_impl; [|exact Hx]. intros y Hy. now rewrite Hpm. }
   destruct (regex_find_candidate lits span (concat ls)) as [[conf x]|]; [|now apply HF].
   destruct H as [(pre & l & post & E & Hpre & H1 & H2 & H3)|(Hconf & Hx & Hall & (pre & l & E & Ht))].
   - left. exists pre, l, post. split; [exact E|]. split; [now apply HF|]. split.
     + unfold in_line. rewrite Hb. split; [exact H1|exact H2].
-    + intros Hcf _. rewrite Hpm. now apply H3.
+    + intros Hcf Hcr. rewrite Hpm. apply H3; [exact Hcf|now apply Hnb].
   - right. split; [exact Hconf|]. split; [exact Hx|]. split; [now apply HF|].
     exists pre, l. rewrite Hb. auto.
+Qed.
+
+Theorem regex_cand_ok_proof : forall h span lits cfg adv fa s,
+  local_looks h = true ->
+  (forall buf i j, Matches h buf i j -> forall p, i <= p < j -> byte_at buf p <> LF) ->
+  span_ok h span -> lits_ok h lits -> c_lt cfg = LTByte LF ->
+  cand_ok cfg (regex_line_matcher h adv lits span fa) s.
+Proof.
+  intros h span lits cfg adv fa s Hloc Hclean Hspan Hlits Hlt.
+  apply (cand_ok_of_lines h span lits cfg adv fa s (content_match h) true).
+  - now rewrite Hlt.
+  - intro l. unfold pmatch, content_match, regex_line_matcher, regex_matcher. cbn [m_is_match]. now rewrite Hlt.
+  - reflexivity.
+  - intros ls Hs Hne.
+    apply (cand_on_lines h Hclean (content_match h) true); auto.
+    + intros pre l post Hsh Hc. now apply (pm_iff h Hloc pre l post Hsh).
+    + intros _ pre l post i j Hsh H1 H2 Mm. apply (pm_iff h Hloc pre l post Hsh). eauto.
 Qed.
 
 (* the literals of a good sequence are not empty *)
@@ -474,22 +501,55 @@ Proof.
   unfold lit_is_poisonous in Hp. destruct (l_bytes x); [discriminate|discriminate].
 Qed.
 
+(* build_many's final HIR has no leaf that can produce the advertised byte terminator *)
+Lemma leaf_free_wrap b c h : leaf_free b h = true -> leaf_free b (wrap c h) = true.
+Proof.
+  intro H. unfold wrap, into_whole_line, into_word.
+  destruct (c_whole_line c); [cbn; now rewrite H|]. destruct (c_word c); [cbn; now rewrite H|exact H].
+Qed.
+
+Lemma build_leaf_free norm rc tr final b :
+  build norm rc tr = inl (final, Some (RTByte b)) -> leaf_free b final = true.
+Proof.
+  unfold build. destruct (configure norm rc tr) as [h|e] eqn:E; [|discriminate].
+  intro H; injection H as <- Ha. unfold advertised_terminator in Ha.
+  destruct (contains_anchor_haystack (wrap rc h)); [discriminate|].
+  unfold configure in E. destruct (match c_ban rc with Some x => ban_check x tr | None => None end); [discriminate|].
+  rewrite Ha in E. cbn [strip_from_match] in E. unfold strip_from_match_ascii in E.
+  destruct (127 <? b)%N; [discriminate|]. apply leaf_free_wrap. exact (strip_ascii_leaf_free b tr h E).
+Qed.
+
+Lemma not_in_nolf (l : bytes) : ~ In LF l -> nolf l.
+Proof.
+  unfold nolf. induction l as [|x r IH]; intro H; cbn; [reflexivity|]. apply andb_true_iff. split.
+  - apply negb_true_iff, N.eqb_neq. intro E. apply H. left. now symmetry.
+  - apply IH. intro Hin. apply H. now right.
+Qed.
+
+Theorem literals_free_of_terminator_proof : forall norm rc tr final b acc lits,
+  (b <= 127)%N -> build norm rc tr = inl (final, Some (RTByte b)) ->
+  fast_line_literals (inner_literals rc acc final) = Some lits -> forall l, In l lits -> ~ In b l.
+Proof.
+  intros norm rc tr final b acc lits Hb Hbuild E l Hin.
+  exact (fast_line_literals_free b Hb rc acc final lits (build_leaf_free norm rc tr final b Hbuild) E l Hin).
+Qed.
+
 (* C01 for the model, both line paths, every searcher configuration without binary detection:
    the run of SliceByLine equals the grep reference whose "line matches" test is "the final HIR
    has a match in the line's content" *)
 Theorem c01_slice_run_eq_ref_proof :
   forall norm, norm_ok norm ->
-  forall rc tr final acc lits span fa cfg s,
+  forall rc tr final acc span fa cfg s,
     build norm rc tr = inl (final, Some (RTByte LF)) ->
     local_looks final = true ->
-    fast_line_literals (inner_literals rc acc final) = lits ->
-    (forall ls l, lits = Some ls -> In l ls -> nolf l) ->
     span_ok final span ->
     c_lt cfg = LTByte LF -> c_binary cfg = BNone ->
-    slice_by_line_run cfg (regex_line_matcher final (Some (RTByte LF)) lits span fa) (fun _ => Continue) s
+    slice_by_line_run cfg (regex_line_matcher final (Some (RTByte LF))
+                             (fast_line_literals (inner_literals rc acc final)) span fa) (fun _ => Continue) s
     = RunOk (grep_ref cfg (is_match_sem final) s).
 Proof.
-  intros norm Hn rc tr final acc lits span fa cfg s Hb Hloc Hl Hnl Hspan Hlt Hbin.
+  intros norm Hn rc tr final acc span fa cfg s Hb Hloc Hspan Hlt Hbin.
+  set (lits := fast_line_literals (inner_literals rc acc final)).
   change (is_match_sem final) with (m_is_match (regex_line_matcher final (Some (RTByte LF)) lits span fa)).
   apply slice_eq_ref_proof; [exact Hbin|]. apply find_spec_of_cand_proof.
   apply regex_cand_ok_proof; auto.
@@ -497,8 +557,10 @@ Proof.
     pose proof (build_line_terminator_promise_proof norm Hn rc tr final (RTByte LF) buf i j Hb Mm p Hp) as H.
     cbn in H. rewrite Hbyte in H. discriminate.
   - unfold lits_ok. destruct lits as [ls|] eqn:E; [|exact I]. split.
-    + intros l Hin. split; [exact (fast_line_literals_nonempty rc acc final ls Hl l Hin)|exact (Hnl ls l eq_refl Hin)].
-    + intros buf a b i j Mm Ha Hbb. exact (candidate_never_skips_proof rc acc final ls buf a b i j Hl Mm Ha Hbb).
+    + intros l Hin. split; [exact (fast_line_literals_nonempty rc acc final ls E l Hin)|].
+      apply not_in_nolf.
+      exact (fast_line_literals_free LF ltac:(lia) rc acc final ls (build_leaf_free norm rc tr final LF Hb) E l Hin).
+    + intros buf a b i j Mm Ha Hbb. exact (candidate_never_skips_proof rc acc final ls buf a b i j E Mm Ha Hbb).
 Qed.
 
 (* ---- span_ok is satisfiable ---- *)
@@ -527,4 +589,161 @@ Proof.
     assert (Hin : In i (seq 0 (S (length hay)))) by (apply in_seq; lia).
     pose proof (find_none _ _ E i Hin) as Hf. unfold f in Hf. apply ends_spec_proof in Mm.
     destruct (ends h hay i); [destruct Mm|discriminate].
+Qed.
+
+(* ---- CRLF lines ---- *)
+Definition content_match_crlf (h : hir) (l : bytes) : bool := is_match_sem h (without_terminator LTCrlf l).
+
+Lemma rev_head_in {A} (l : list A) x r : rev l = x :: r -> l = rev r ++ [x].
+Proof. intro H. apply (f_equal (@rev A)) in H. rewrite rev_involutive in H. exact H. Qed.
+
+Lemma rev_nil_inv {A} (l : list A) : rev l = [] -> l = [].
+Proof. intro H. apply (f_equal (@rev A)) in H. now rewrite rev_involutive in H. Qed.
+
+Lemma wt_crlf_nolf l : nolf l -> without_terminator LTCrlf l = l.
+Proof.
+  intro Hn. unfold without_terminator. destruct (rev l) as [|x r] eqn:E; [reflexivity|].
+  apply rev_head_in in E. destruct x as [|p]; [reflexivity|].
+  do 4 (destruct p as [p|p|]; try reflexivity). exfalso.
+  subst l. unfold nolf in Hn. rewrite forallb_app in Hn. apply andb_true_iff in Hn as [_ Hn]. cbn in Hn. discriminate.
+Qed.
+
+Lemma wt_crlf_terminated body :
+  without_terminator LTCrlf (body ++ [LF]) = match rev body with 13%N :: r' => rev r' | _ => body end.
+Proof.
+  unfold without_terminator. rewrite rev_app_distr. cbn [rev app].
+  destruct (rev body) as [|x r] eqn:E; [apply rev_nil_inv in E; now subst body|].
+  pose proof (rev_head_in _ _ _ E) as Eb.
+  destruct x as [|p]; [cbn; now rewrite <- Eb|].
+  do 4 (destruct p as [p|p|]; try (cbn; now rewrite <- Eb)).
+Qed.
+
+Lemma sub_prefix (s : bytes) a b n : a + n <= b -> sub s a (a + n) = firstn n (sub s a b).
+Proof.
+  intro H. unfold sub. replace (a + n - a) with n by lia. rewrite firstn_firstn.
+  now replace (Nat.min n (b - a)) with n by lia.
+Qed.
+
+Lemma crlf_geometry pre l post :
+  lines_shape LF (pre ++ l :: post) ->
+  let hay := concat (pre ++ l :: post) in
+  let a := length (concat pre) in
+  exists b, a <= b /\ b <= a + clen l /\ b <= length hay /\
+    sub hay a b = without_terminator LTCrlf l /\
+    (a = 0 \/ byte_at hay (a - 1) = LF) /\
+    (b = length hay \/ (byte_at hay b = 13%N /\ b < length hay) \/
+     (byte_at hay b = LF /\ b < length hay /\ (b = a \/ byte_at hay (b - 1) <> 13%N))).
+Proof.
+  intros Hs. cbv zeta. destruct (line_geometry pre l post Hs) as (Hab & HL & HR & Hsub & Hk & Hn).
+  set (hay := concat (pre ++ l :: post)) in *. set (a := length (concat pre)) in *.
+  set (b := a + clen l) in *.
+  destruct Hk as [[(body & -> & Hbody) Hk]|(Hp & Hpost & Hk)].
+  - (* terminated line *)
+    rewrite (wt_terminated body Hbody) in Hsub, Hn. rewrite wt_crlf_terminated.
+    assert (Hcl : clen (body ++ [LF]) = length body) by (unfold clen; now rewrite wt_terminated).
+    assert (Hlen : b + 1 <= length hay).
+    { unfold hay. rewrite concat_app. cbn [concat]. rewrite !app_length. cbn [length]. unfold b, a. rewrite Hcl. lia. }
+    destruct (rev body) as [|x r] eqn:E.
+    + (* empty body *)
+      apply rev_nil_inv in E. assert (Hl0 : length body = 0) by (rewrite E; reflexivity).
+      exists b. split; [lia|]. split; [lia|]. split; [lia|]. split; [exact Hsub|]. split; [exact HL|].
+      right. right. destruct HR as [HR|HR]; [lia|].
+      split; [exact HR|]. split; [lia|]. left. unfold b. rewrite Hcl. lia.
+    + pose proof (rev_head_in _ _ _ E) as Eb.
+      assert (Hx : byte_at hay (b - 1) = x).
+      { replace (b - 1) with (a + length (rev r)).
+        - rewrite <- byte_at_sub with (b := b); [|unfold b; rewrite Hcl, Eb, app_length; cbn; lia].
+          rewrite Hsub, Eb. apply byte_at_mid.
+        - unfold b. rewrite Hcl, Eb, app_length. cbn. lia. }
+      assert (Hcase : x = 13%N \/ x <> 13%N) by (destruct (N.eq_dec x 13); auto).
+      destruct Hcase as [-> | Hne].
+      * (* the body ends in "\r": the content is the body without it *)
+        exists (a + length (rev r)).
+        assert (Hb1 : a + length (rev r) + 1 = b) by (unfold b; rewrite Hcl, Eb, app_length; cbn; lia).
+        split; [lia|]. split; [lia|]. split; [lia|]. split.
+        { rewrite (sub_prefix hay a b (length (rev r))) by lia. rewrite Hsub, Eb.
+          rewrite firstn_app, firstn_all, Nat.sub_diag. cbn. apply app_nil_r. }
+        split; [exact HL|]. right. left. split; [|lia].
+        replace (a + length (rev r)) with (b - 1) by lia. exact Hx.
+      * exists b. split; [lia|]. split; [lia|]. split; [lia|]. split.
+        { rewrite Hsub. destruct x as [|p]; [reflexivity|].
+          do 4 (destruct p as [p|p|]; try reflexivity). congruence. }
+        split; [exact HL|]. right. right. destruct HR as [HR|HR]; [lia|].
+        split; [exact HR|]. split; [lia|]. right. now rewrite Hx.
+  - (* last line without terminator *)
+    destruct Hp as [Hne Hnl]. rewrite (wt_partial l (conj Hne Hnl)) in Hsub.
+    exists b. rewrite (wt_crlf_nolf l Hnl). split; [lia|]. split; [lia|]. split; [lia|].
+    split; [exact Hsub|]. split; [exact HL|]. left.
+    unfold hay. rewrite Hpost, concat_app. cbn [concat]. rewrite !app_length. cbn [length]. unfold a in *. lia.
+Qed.
+
+Lemma cm_fwd_crlf h : local_looks_crlf h = true -> forall pre l post,
+  lines_shape LF (pre ++ l :: post) -> content_match_crlf h l = true ->
+  exists i j, length (concat pre) <= i /\ j <= length (concat pre) + clen l /\
+              Matches h (concat (pre ++ l :: post)) i j.
+Proof.
+  intros Hloc pre l post Hs Hc.
+  destruct (crlf_geometry pre l post Hs) as (b & H1 & H2 & H3 & Hsub & HL & HR).
+  set (hay := concat (pre ++ l :: post)) in *. set (a := length (concat pre)) in *.
+  unfold content_match_crlf in Hc. rewrite <- Hsub in Hc. apply is_match_sem_iff in Hc as (i & j & M).
+  pose proof (matches_bounds _ _ _ _ M) as B. rewrite length_sub' in B by lia.
+  exists (a + i), (a + j). split; [lia|]. split; [lia|].
+  apply (line_locality_crlf_proof h hay a b i j Hloc ltac:(lia) HL HR ltac:(lia)). exact M.
+Qed.
+
+Theorem regex_cand_ok_crlf_proof : forall h span lits cfg adv fa s,
+  local_looks_crlf h = true ->
+  (forall buf i j, Matches h buf i j -> forall p, i <= p < j -> byte_at buf p <> LF) ->
+  span_ok h span -> lits_ok h lits -> c_lt cfg = LTCrlf ->
+  cand_ok cfg (regex_line_matcher h adv lits span fa) s.
+Proof.
+  intros h span lits cfg adv fa s Hloc Hclean Hspan Hlits Hlt.
+  apply (cand_ok_of_lines h span lits cfg adv fa s (content_match_crlf h) false).
+  - now rewrite Hlt.
+  - intro l. unfold pmatch, content_match_crlf, regex_line_matcher, regex_matcher. cbn [m_is_match]. now rewrite Hlt.
+  - rewrite Hlt. cbn. discriminate.
+  - intros ls Hs Hne.
+    apply (cand_on_lines h Hclean (content_match_crlf h) false); auto.
+    + intros pre l post Hsh Hc. now apply (cm_fwd_crlf h Hloc pre l post Hsh).
+    + discriminate.
+Qed.
+
+Lemma build_leaf_free_crlf norm rc tr final :
+  build norm rc tr = inl (final, Some RTCrlf) -> leaf_free LF final = true.
+Proof.
+  unfold build. destruct (configure norm rc tr) as [h|e] eqn:E; [|discriminate].
+  intro H; injection H as <- Ha. unfold advertised_terminator in Ha.
+  destruct (contains_anchor_haystack (wrap rc h)); [discriminate|].
+  unfold configure in E. destruct (match c_ban rc with Some x => ban_check x tr | None => None end); [discriminate|].
+  rewrite Ha in E. cbn [strip_from_match] in E. unfold strip_from_match_ascii in E.
+  change (127 <? 13)%N with false in E. change (127 <? 10)%N with false in E. cbn iota in E.
+  destruct (strip_ascii 13 tr) as [h1|e1]; [|discriminate].
+  apply leaf_free_wrap. exact (strip_ascii_leaf_free LF (norm h1) h E).
+Qed.
+
+(* C01 for the model with the CRLF terminator (after the D1/D9 repairs) *)
+Theorem c01_slice_run_eq_ref_crlf_proof :
+  forall norm, norm_ok norm ->
+  forall rc tr final acc span fa cfg s,
+    build norm rc tr = inl (final, Some RTCrlf) ->
+    local_looks_crlf final = true ->
+    span_ok final span ->
+    c_lt cfg = LTCrlf -> c_binary cfg = BNone ->
+    slice_by_line_run cfg (regex_line_matcher final (Some RTCrlf)
+                             (fast_line_literals (inner_literals rc acc final)) span fa) (fun _ => Continue) s
+    = RunOk (grep_ref cfg (is_match_sem final) s).
+Proof.
+  intros norm Hn rc tr final acc span fa cfg s Hb Hloc Hspan Hlt Hbin.
+  set (lits := fast_line_literals (inner_literals rc acc final)).
+  change (is_match_sem final) with (m_is_match (regex_line_matcher final (Some RTCrlf) lits span fa)).
+  apply slice_eq_ref_proof; [exact Hbin|]. apply find_spec_of_cand_proof.
+  apply regex_cand_ok_crlf_proof; auto.
+  - intros buf i j Mm p Hp Hbyte.
+    pose proof (build_line_terminator_promise_proof norm Hn rc tr final RTCrlf buf i j Hb Mm p Hp) as H.
+    cbn in H. rewrite Hbyte in H. cbn in H. discriminate.
+  - unfold lits_ok. destruct lits as [ls|] eqn:E; [|exact I]. split.
+    + intros l Hin. split; [exact (fast_line_literals_nonempty rc acc final ls E l Hin)|].
+      apply not_in_nolf.
+      exact (fast_line_literals_free LF ltac:(lia) rc acc final ls (build_leaf_free_crlf norm rc tr final Hb) E l Hin).
+    + intros buf a b i j Mm Ha Hbb. exact (candidate_never_skips_proof rc acc final ls buf a b i j E Mm Ha Hbb).
 Qed.
